@@ -573,6 +573,7 @@ func (f *FuncCtx) callFunc(fn *types.Func, recv *Val, recvExpr ast.Expr, e *ast.
 	// abstract: results havocked, modelled state untouched -- except scalars passed by pointer, which the
 	// callee may overwrite (errors.As(err, &target), json.Unmarshal(b, &x), ...): those are havocked
 	f.havocPointerArgs(e, env)
+	f.havocEscapedCaptures(env)
 	// a pointer-receiver method called on an addressable local value may overwrite it (id.SetDecString(..))
 	if recvExpr != nil {
 		if id, ok := ast.Unparen(recvExpr).(*ast.Ident); ok {
@@ -888,9 +889,19 @@ func (f *FuncCtx) callContract(fn *types.Func, c *FuncContract, pc *PkgContracts
 			f.oblige(fmt.Sprintf("call.%s#%d.pre.%d", short, ord, k+1), "call.pre", env, g, cl.Text, fmt.Sprintf("%s:%d", shortPath(cl.File), cl.Line))
 		}
 	}
+	// frame: a callee without an assigns clause must not write module heap (see frameguard.go)
+	if !c.HasAssigns && !c.Assumed && f.spec == nil {
+		if w, why := f.E.writesHeap(fn, 0, map[*types.Func]bool{}); w {
+			f.fail("callee %s is used through its contract, writes heap (%s) and has no assigns clause", short, why)
+		}
+	}
 	// frame: havoc what the callee assigns
 	for _, a := range c.Assigns {
 		f.havocPath(a, bound, env, pc, cpkg, e, osig)
+	}
+	if !c.Pure {
+		// the callee (or what it calls) may run a function literal of this function that escaped
+		f.havocEscapedCaptures(env)
 	}
 	// results: uninterpreted functions of the arguments if declared pure, fresh otherwise
 	var results []Val
@@ -1022,8 +1033,19 @@ func (f *FuncCtx) havocPath(path string, bound map[string]Val, env *Env, pc *Pkg
 			f.errs = f.errs[:nerr]
 			return
 		}
-		if _, el, ok := ptrStruct(base.Typ); ok {
+		if st, el, ok := ptrStruct(base.Typ); ok {
 			obj, idx := lookupFieldAnyPkg(base.Typ, p.Sel.Name)
+			if obj == nil && p.Sel.Name == "all" {
+				// `assigns x.all`: every field of the object (a callee that locks x: other goroutines may have run)
+				for i := 0; i < st.NumFields(); i++ {
+					fl := st.Field(i)
+					h := f.heapName(el, fl)
+					nv := f.freshVal(fl.Type(), "hv_"+fl.Name())
+					hs := f.heapSort[h]
+					env.heap[h] = f.define("H", fmt.Sprintf("(Array %s %s)", hs[0], hs[1]), fmt.Sprintf("(store %s %s %s)", f.heapGet(env, h), base.T, nv.T))
+				}
+				return
+			}
 			if obj == nil {
 				f.fail("assigns: no field %s", path)
 				return
